@@ -107,3 +107,119 @@ Proof.
   cbn in H1. repeat (first [discriminate | apply append_cancel_l in H1 | injection H1 as H1]).
   all: try discriminate.
 Qed.
+
+(* ------------------------------------------------------------------ the caller's context *)
+From GZ Require Import C03.ProofsToken.
+
+(* one call whose context is done before (TAllowC) or becomes done during (TAllowD) the store call,
+   on an instance that is on the shared bucket: refused, the instance is untouched (no monitor,
+   still on the store), the store's reachability flag is untouched; if the script had not run
+   nothing changes at all *)
+Lemma caller_context_step_all c s i now n rescue ran t :
+  nth_error (tinsts s) i = Some t -> alive t = true ->
+  tstep c s (TAllowC i now n rescue) = (s, TR false true false) /\
+  (let s' := fst (tstep c s (TAllowD i now n rescue ran)) in
+   snd (tstep c s (TAllowD i now n rescue ran)) = TR false true ran /\
+   tinsts s' = tinsts s /\ tdown s' = tdown s /\ (ran = false -> s' = s)).
+Proof.
+  intros Hn Ha. split.
+  - rewrite token_cancel_all with (t := t) by exact Hn. now rewrite Ha.
+  - cbn [tstep]. rewrite Hn, Ha. cbn [negb]. destruct ran.
+    + destruct (eval _ _ _ _) as [r st']. cbn. repeat split; auto. discriminate.
+    + cbn. repeat split; auto.
+Qed.
+
+(* histories without a store failure: the store is never taken down, no reply is forged, the
+   circuit breaker lets every command through; requests may carry any context *)
+Definition healthy (o : top) : bool :=
+  match o with
+  | TAllow _ _ _ _ brk | TAllowLate _ _ _ _ brk => brk
+  | TAllowF _ _ _ _ _ | TDown => false
+  | _ => true
+  end.
+
+Definition no_fallback (r : tobs) : Prop := match r with TR _ a _ => a = true | TU => True end.
+
+Definition fresh (l : list tinst) : Prop := Forall (fun t => t = mkT true false) l.
+
+Lemma fresh_set_nth i l : fresh l -> fresh (set_nth i (mkT true false) l).
+Proof.
+  revert i. induction l as [|y l IH]; intros i H; destruct i; cbn; auto; inversion H; subst; constructor; auto.
+  apply IH; auto.
+Qed.
+
+Lemma fresh_nth l i t : fresh l -> nth_error l i = Some t -> t = mkT true false.
+Proof. intros H Hn. unfold fresh in H. rewrite Forall_forall in H. apply H. eapply nth_error_In; eauto. Qed.
+
+Lemma sp_no_rescue c : forall ops a,
+  sp_tdown a = false -> fresh (sp_insts a) -> forallb healthy ops = true ->
+  Forall no_fallback (sp_trun c a ops) /\ fresh (sp_insts (sp_tfinal c a ops)).
+Proof.
+  induction ops as [|o ops IH]; intros a Hd Hf Hh; cbn [sp_trun sp_tfinal]; [split; [constructor|exact Hf]|].
+  cbn [forallb] in Hh. apply andb_true_iff in Hh. destruct Hh as [Ho Hh].
+  assert (STEP : no_fallback (snd (sp_tstep c a o)) /\ sp_tdown (fst (sp_tstep c a o)) = false /\
+                 fresh (sp_insts (fst (sp_tstep c a o)))).
+  { destruct o as [i now n rescue brk|ms| | |i|i now n rescue r|i now n rescue|i now n rescue ran|i|i now n rescue brk];
+      cbn [healthy] in Ho; try discriminate; cbn [sp_tstep].
+    - subst brk. destruct (nth_error (sp_insts a) i) as [t|] eqn:Hn; [|cbn; auto].
+      rewrite (fresh_nth _ _ _ Hf Hn). cbn [alive negb]. rewrite Hd. cbn [orb negb].
+      destruct (bucket_take _ _ _ _ _) as [b' g]. cbn. repeat split; auto. now apply fresh_set_nth.
+    - cbn; auto.
+    - cbn; auto.
+    - destruct (nth_error (sp_insts a) i) as [t|] eqn:Hn; [|cbn; auto].
+      rewrite (fresh_nth _ _ _ Hf Hn). cbn; auto.
+    - destruct (nth_error (sp_insts a) i) as [t|] eqn:Hn; [|cbn; auto].
+      rewrite (fresh_nth _ _ _ Hf Hn). cbn; auto.
+    - destruct (nth_error (sp_insts a) i) as [t|] eqn:Hn; [|cbn; auto].
+      rewrite (fresh_nth _ _ _ Hf Hn). cbn [alive negb]. destruct ran; [|cbn; auto].
+      destruct (bucket_take _ _ _ _ _) as [b' g]. cbn; auto.
+    - destruct (nth_error (sp_insts a) i) as [t|] eqn:Hn; [|cbn; auto].
+      rewrite (fresh_nth _ _ _ Hf Hn). cbn; auto.
+    - subst brk. destruct (nth_error (sp_insts a) i) as [t|] eqn:Hn; [|cbn; auto].
+      rewrite (fresh_nth _ _ _ Hf Hn). rewrite Hd. cbn [orb negb].
+      destruct (bucket_take _ _ _ _ _) as [b' g]. cbn. repeat split; auto. now apply fresh_set_nth. }
+  destruct (sp_tstep c a o) as [a' r]. cbn [fst snd] in *. destruct STEP as [S1 [S2 S3]].
+  destruct (IH a' S2 S3 Hh) as [I1 I2]. split; [constructor; auto|exact I2].
+Qed.
+
+Lemma fresh_repeat n : fresh (repeat (mkT true false) n).
+Proof. induction n; cbn; constructor; auto. Qed.
+
+(* RESCUE MODE ONLY AFTER A STORE FAILURE.  n instances, ANY history in which the store never fails
+   (never down, no forged reply, no breaker cut) - calls by any instances with any contexts: live,
+   already done (TAllowC), becoming done during the store call with the script run or not
+   (TAllowD), concurrent (TAllowLate), clock advances, monitor ticks: no call makes an instance fall
+   back, every instance stays on the shared bucket with no monitor, and (token_joint_bound) the
+   tokens granted stay within burst + rate * elapsed. *)
+Lemma caller_context_never_starts_rescue_all c incl base n ops :
+  1 <= rate c -> 0 <= burst c -> ktokens c <> kts c -> 0 <= base ->
+  twf base ops = true -> forallb healthy ops = true ->
+  Forall no_fallback (trun c (tinit incl base n) ops) /\
+  tinsts (tfinal c (tinit incl base n) ops) = repeat (mkT true false) n.
+Proof.
+  intros Hr Hb Hk Hbase Hwf Hh.
+  set (a0 := mkSp (mkB (burst c) 0) base false (repeat (mkT true false) n)).
+  pose proof (rel_init c Hr Hb incl base n Hbase) as R0.
+  destruct (trun_refines c Hr Hb Hk ops (tinit incl base n) a0 R0 Hwf) as [E R].
+  destruct (sp_no_rescue c ops a0 eq_refl (fresh_repeat n) Hh) as [F1 F2].
+  split; [rewrite E; exact F1|].
+  destruct R as [_ [_ [_ [RI _]]]]. rewrite RI.
+  assert (L : forall l, fresh l -> l = repeat (mkT true false) (List.length l)).
+  { induction l as [|y l IHl]; intro H; [reflexivity|]. inversion H; subst. cbn. f_equal. auto. }
+  rewrite (L _ F2). f_equal.
+  (* the number of instances never changes *)
+  assert (LEN : forall ops a, List.length (sp_insts (sp_tfinal c a ops)) = List.length (sp_insts a)).
+  { assert (SN : forall (i : nat) (x : tinst) l, List.length (set_nth i x l) = List.length l).
+    { intros i x l. revert i. induction l as [|y l IHl]; intro i; destruct i; cbn; auto. }
+    induction ops0 as [|o ops0 IHo]; intro a; cbn [sp_tfinal]; [reflexivity|]. rewrite IHo.
+    destruct o as [i now n0 rescue brk|ms| | |i|i now n0 rescue r|i now n0 rescue|i now n0 rescue ran|i|i now n0 rescue brk]; cbn [sp_tstep]; try reflexivity;
+      destruct (nth_error (sp_insts a) i) as [t|]; try reflexivity.
+    - destruct (alive t); cbn [negb]; [|reflexivity]. destruct (sp_tdown a || negb brk)%bool; cbn; [now rewrite SN|].
+      destruct (bucket_take _ _ _ _ _). cbn. now rewrite SN.
+    - destruct (monitor t && negb (sp_tdown a))%bool; cbn; [now rewrite SN|reflexivity].
+    - destruct (alive t); cbn [negb]; [|reflexivity]. destruct (token_reply t r rescue). cbn. now rewrite SN.
+    - destruct (alive t); cbn [negb]; [|reflexivity]. destruct ran; [|reflexivity]. destruct (bucket_take _ _ _ _ _). reflexivity.
+    - destruct (monitor t); cbn; [now rewrite SN|reflexivity].
+    - destruct (sp_tdown a || negb brk)%bool; cbn; [now rewrite SN|]. destruct (bucket_take _ _ _ _ _). cbn. now rewrite SN. }
+  rewrite LEN. unfold a0. cbn. apply repeat_length.
+Qed.
